@@ -554,7 +554,7 @@ func runConfig(cfg childCfg, nConv int, replay []conversation) {
 				convs = append(convs, cv)
 			}
 			// and the deterministic multi-connection family (one session driven from two connections)
-			for _, cv := range append(linkedConversations(cfg), tunnelConversations(cfg)...) {
+			for _, cv := range append(append(linkedConversations(cfg), tunnelConversations(cfg)...), stalledConversations(cfg)...) {
 				cv.ID = id
 				id++
 				convs = append(convs, cv)
